@@ -24,8 +24,19 @@ FirstInDocOrder(S) == CHOOSE n \in S : \A m \in S : m = n \/ Before(n, m)
 StrTrue  == <<116, 114, 117, 101>>
 StrFalse == <<102, 97, 108, 115, 101>>
 
+(* result tree fragments (XSLT 11.1): a value [t |-> "rtf", v |-> sequence of result items]; an   *)
+(* item is [k |-> "text", v] | [k |-> "elem", kids, ...] | comment / pi / attr (no string-value     *)
+(* contribution below the fragment root except text and element content)                            *)
+RECURSIVE ItemsText(_, _)
+ItemsText(items, i) ==
+  IF i > Len(items) THEN <<>>
+  ELSE (CASE items[i].k = "text" -> items[i].v
+          [] items[i].k = "elem" -> ItemsText(items[i].kids, 1)
+          [] OTHER -> <<>>) \o ItemsText(items, i + 1)
+
 (* ---- conversions (XPath 4.1-4.4) ; argument must not be Bad -------------------------------- *)
 ToStr(F, v) == CASE v.t = "str"  -> v.v
+                 [] v.t = "rtf"  -> ItemsText(v.v, 1)
                  [] v.t = "num"  -> NumToStr(v.v)
                  [] v.t = "bool" -> IF v.v THEN StrTrue ELSE StrFalse
                  [] v.t = "ns"   -> IF v.v = {} THEN <<>> ELSE StringValue(F, FirstInDocOrder(v.v))
@@ -33,7 +44,9 @@ ToNumX(F, v) == CASE v.t = "num"  -> v.v                \* may be Unm for string
                   [] v.t = "str"  -> StrToNum(v.v)
                   [] v.t = "bool" -> IF v.v THEN One ELSE Zero
                   [] v.t = "ns"   -> StrToNum(ToStr(F, v))
+                  [] v.t = "rtf"  -> StrToNum(ToStr(F, v))
 ToBool(v) == CASE v.t = "bool" -> v.v
+               [] v.t = "rtf"  -> TRUE              \* a node-set holding the fragment's root node
                [] v.t = "num"  -> ~(IsNaN(v.v) \/ IsZero(v.v))
                [] v.t = "str"  -> Len(v.v) > 0
                [] v.t = "ns"   -> v.v # {}
@@ -47,9 +60,10 @@ RelNum(o, a, b) == CASE o = "="  -> NumEq(a, b)
                      [] o = ">=" -> NumLe(b, a)
 Compare(F, o, l, r) ==
   LET isEq == o \in {"=", "!="}
-      other == IF l.t = "ns" THEN r ELSE l
-      mode == IF l.t = "ns" /\ r.t = "ns" THEN (IF isEq THEN "str" ELSE "num")
-              ELSE IF l.t = "ns" \/ r.t = "ns"
+      setLike(v) == v.t \in {"ns", "rtf"}          \* a fragment compares like a one-node node-set
+      other == IF setLike(l) THEN r ELSE l
+      mode == IF setLike(l) /\ setLike(r) THEN (IF isEq THEN "str" ELSE "num")
+              ELSE IF setLike(l) \/ setLike(r)
                    THEN (IF other.t = "bool" THEN "bool"
                          ELSE IF other.t = "num" THEN "num"
                          ELSE IF isEq THEN "str" ELSE "num")
